@@ -760,4 +760,59 @@ theorem run_uniq {α} (ops : List (Op α)) : ∀ (s : Scope α), Uniq s → Uniq
   | cons op rest ih => intro s hs; simp only [run]; exact ih _ (step_uniq s op hs)
 
 
+/-! ## blocks -/
+
+/-- what `step` does to a scope that does not know the name -/
+theorem step_unknown {α} (s : Scope α) (op : Op α) (k : String) (hk : op.chainKey = some k)
+    (h : lookup s k = none) : step s op = (s, .err .undeclared) := by
+  cases op <;> simp only [Op.chainKey, Option.some.injEq, reduceCtorEq] at hk <;> subst hk <;> simp [step, h]
+
+theorem stepS_undeclared {α} (st : Stack α) (op : Op α) (k : String) (hk : op.chainKey = some k)
+    (h : lookupS st k = none) : stepS st op = (st, .err .undeclared) := by
+  induction st with
+  | nil => simp [stepS, step_unknown ([] : Scope α) op k hk rfl]
+  | cons b rest ih =>
+    simp only [lookupS] at h
+    split at h
+    · cases h
+    · rename_i hl
+      simp only [stepS, hk, hl]
+      rw [ih h]
+
+/-- a statement acts on the innermost binding of its name, leaving every other block alone -/
+theorem stepS_acts_on_innermost {α} (st : Stack α) (op : Op α) (k : String) (hk : op.chainKey = some k)
+    (c : CState α) (h : lookupS st k = some c) :
+    ∃ (pre : List (Scope α)) (b : Scope α) (post : List (Scope α)),
+      st = pre ++ b :: post ∧ (∀ b' ∈ pre, lookup b' k = none) ∧ lookup b k = some c ∧
+      stepS st op = (pre ++ (step b op).1 :: post, (step b op).2) := by
+  induction st with
+  | nil => simp [lookupS] at h
+  | cons b rest ih =>
+    simp only [lookupS] at h
+    split at h
+    · rename_i c' hl
+      injection h with h; subst h
+      exact ⟨[], b, rest, rfl, by simp, hl, by simp [stepS, hk, hl]⟩
+    · rename_i hl
+      obtain ⟨pre, b0, post, h1, h2, h3, h4⟩ := ih h
+      refine ⟨b :: pre, b0, post, by simp [h1], ?_, h3, ?_⟩
+      · intro b' hb'
+        simp only [List.mem_cons] at hb'
+        rcases hb' with rfl | hb'
+        · exact hl
+        · exact h2 b' hb'
+      · simp [stepS, hk, hl, h4]
+
+theorem lookupS_push {α} (st : Stack α) (k : String) : lookupS ([] :: st) k = lookupS st k := by
+  simp [lookupS, lookup]
+
+theorem update_update {α} (s : Scope α) (k : String) (c1 c2 : CState α) :
+    update (update s k c1) k c2 = update s k c2 := by
+  induction s with
+  | nil => rfl
+  | cons hd t ih =>
+    obtain ⟨k', c'⟩ := hd
+    by_cases hk : k' = k <;> simp [update, hk, ih]
+
+
 end Csvq.Cursor
